@@ -3,7 +3,8 @@
 and whether by a concrete failing input (oracle) or only by a broken proof/correspondence."""
 import os, sys, json, glob, re, subprocess, shutil
 VERIF = os.path.dirname(os.path.dirname(os.path.abspath(__file__)))
-only = sys.argv[1:]
+only = [a for a in sys.argv[1:] if not a.startswith('--')]
+no_meta = '--no-meta' in sys.argv   # robustness runs at other seeds: print only
 for d in sorted(glob.glob(os.path.join(VERIF, 'seeded', 'C*_*'))):
     name = os.path.basename(d); pid = name.split('_')[0]
     if only and pid not in only and name not in only:
@@ -17,9 +18,10 @@ for d in sorted(glob.glob(os.path.join(VERIF, 'seeded', 'C*_*'))):
     now = sorted((prev - {pid}) | ({pid} if viol else set()))
     m['caught_by_now'] = now
     m['caught_with_concrete_input'] = bool(concrete)
-    json.dump(m, open(os.path.join(d, 'meta.json'), 'w'), indent=1)
+    if not no_meta:
+        json.dump(m, open(os.path.join(d, 'meta.json'), 'w'), indent=1)
     rp = re.search(r'replay=(\S+)', concrete[0] if concrete else (viol[0] if viol else ''))
-    if rp and os.path.exists(os.path.join(VERIF, rp.group(1))):
+    if rp and not no_meta and os.path.exists(os.path.join(VERIF, rp.group(1))):
         shutil.copy(os.path.join(VERIF, rp.group(1)), os.path.join(d, 'example_replay.json'))
     print('%s: %s%s' % (name, 'CAUGHT' if viol else 'MISSED', '' if concrete or not viol else ' (no concrete input)'), flush=True)
     shutil.rmtree(os.path.join(VERIF, 'replays', pid), ignore_errors=True)
